@@ -754,7 +754,9 @@ func (c *compiler) compileReturnStatement(v *ast.ReturnStatement) {
 
 func (c *compiler) checkVarConflict(name unistring.String, offset int) {
 	for sc := c.scope; sc != nil; sc = sc.outer {
-		if b, exists := sc.boundNames[name]; exists && !b.isVar && !(b.isArg && sc != c.scope) {
+		// a var may redeclare any parameter name (simple, rest or bound by a destructuring pattern): when the
+		// function has its own body scope, everything bound in the function (parameter) scope is fair game
+		if b, exists := sc.boundNames[name]; exists && !b.isVar && !((b.isArg || sc.isFunction()) && sc != c.scope) {
 			c.throwSyntaxErrorf(offset, "Identifier '%s' has already been declared", name)
 		}
 		if sc.isFunction() {
